@@ -116,7 +116,7 @@ func runStream(rd io.Reader, reuseMode int, r *Rng) streamOutcome {
 
 func checkC09(c *Ctx) {
 	r := c.Rng
-	c.Ev.Coverage.Rule = "NDJSON streams of 1..400 documents of very different sizes with blank lines anywhere (also only blank lines at the end, CRLF), read through a reader that fragments at sizes from {1,2,3,7,64,4095,4096,4097,random,whole} (cuts inside tokens, inside blank runs, right before/after LF), with the reuse channel fed never/sometimes/always, one run in five with a consumer that lags behind the reader (queue full when the reader ends); delivered roots in order must equal the Coq specification nd_spec of the stream, followed by io.EOF and close, nothing after the error. With an injected reader error at a sweep of offsets (every offset for small streams): delivered documents must be a prefix of the specification's sequence, the injected error delivered last, then close. non-trivial = stream with >= 2 chunks; distinct = by (stream, fragmentation, failure offset)"
+	c.Ev.Coverage.Rule = "NDJSON streams of 1..400 documents of very different sizes with blank lines anywhere (also only blank lines at the end, CRLF), read through a reader that fragments at sizes from {1,2,3,7,64,4095,4096,4097,random,whole} (cuts inside tokens, inside blank runs, right before/after LF), with the reuse channel fed never/sometimes/always, one run in five with a consumer that lags behind the reader (queue full when the reader ends); chunks in which an escape sequence straddles the 64-byte block boundary at which stage 1 hands over a full 1408-entry index buffer (five line shapes, boundary swept); delivered roots in order must equal the Coq specification nd_spec of the stream, followed by io.EOF and close, nothing after the error. With an injected reader error at a sweep of offsets (every offset for small streams): delivered documents must be a prefix of the specification's sequence, the injected error delivered last, then close. non-trivial = stream with >= 2 chunks; distinct = by (stream, fragmentation, failure offset)"
 	sizeSets := [][]int{{1}, {2}, {3}, {7}, {64}, {4095}, {4096}, {4097}, {1 << 20}, {1, 64, 3}, {5, 1, 1, 200}, nil}
 	type job struct {
 		stream []byte
@@ -193,6 +193,15 @@ func checkC09(c *Ctx) {
 		j := &job{stream: st, sizes: sizes, fail: -1}
 		j.out = runStream(&fragReader{data: st, sizes: sizes, failAt: -1}, 0, r)
 		jobs = append(jobs, j)
+	}
+	// chunks in which an escape straddles the block boundary where stage 1 hands over a full
+	// index buffer, delivered in one read and in fragments
+	for i, st := range handoverEscapeDocs(true, []int{0, 29}) {
+		for _, sizes := range [][]int{{1 << 20}, {[]int{4096, 7, 4097, 64}[i%4]}} {
+			j := &job{stream: st, sizes: sizes, fail: -1, reuse: i % 3}
+			j.out = runStream(&fragReader{data: st, sizes: sizes, failAt: -1}, j.reuse, r)
+			jobs = append(jobs, j)
+		}
 	}
 	var reqs []string
 	for _, j := range jobs {
